@@ -590,6 +590,93 @@ def r7(ctx):
         ctx.emit('C01-R7', ok, DEMUX, None, f'driver closes the output and reject handles ({[c for c in closes if "andle" in c]})', key='driver-closes', nontrivial=False)
 
 
+@rule('C01', 'C01-R11', 'every rejected pair carries its rejection reason: what the loader hands to the rejects tagger for a NonMultiplexable - also one raised without a message - '
+                        'passes the test under which TaggedRecord stores the RR tag, and the base strategy forwards it to every record it builds')
+def r11(ctx):
+    from ..consteval import Evaluator, Unfoldable
+    f, outer, inner = loader_loops(ctx)
+    arms = [h for t in walk_no_nested(inner) if isinstance(t, ast.Try) for h in t.handlers if h.type is not None and last_name(dotted(h.type) or '') == 'NonMultiplexable' and h.name]
+    calls = [(h, c) for h in arms for c in walk_no_nested(h) if isinstance(c, ast.Call) and (dotted(c.func) or '').endswith('.demultiplex') and any(k.arg == 'reason' for k in c.keywords)]
+    ctx.need('C01-R11', len(calls), 1, 'rejects-tagger calls in the NonMultiplexable arm of the loader')
+    init = ctx.fn(BASEDEMUX, 'TaggedRecord.__init__')
+    stores = [st for st in walk_no_nested(init) if isinstance(st, ast.Assign) and any(isinstance(t, ast.Subscript) and isinstance(t.slice, ast.Constant) and t.slice.value == 'RR' for t in st.targets)]
+    ctx.need('C01-R11', len(stores), 1, 'statements storing the RR tag in TaggedRecord.__init__')
+    rparam = 'reason'
+    conds = [(t, pol) for t, pol in (reach_conds(init.body, stores[0]) or []) if rparam in names_in(t)]
+    for k, (h, c) in enumerate(calls):
+        e = [kw.value for kw in c.keywords if kw.arg == 'reason'][0]
+        bad = None
+        try:
+            for exc in (Exception(), Exception('barcode not in whitelist')):
+                env = {h.name: exc}
+                v = Evaluator(dict(env)).ev(e, env)
+                env2 = {rparam: v}
+                stored = all(bool(Evaluator(dict(env2)).ev(t, env2)) == pol for t, pol in conds)
+                if not stored and bad is None:
+                    bad = {'rejection': 'NonMultiplexable(%s)' % (repr(exc.args[0]) if exc.args else ''), 'reason handed to the rejects tagger': repr(v), 'RR stored under': ' and '.join(('' if pol else 'not ') + src(t) for t, pol in conds), 'RR tag written': False}
+        except (Unfoldable, Exception) as e_:
+            ctx.emit('C01-R11', False, LOADER, c, f'the reason expression `{src(e)}` / the RR guard is outside the interpreted subset ({type(e_).__name__}: {str(e_)[:60]})', key=f'reason-reaches-RR:{k}', undecided=True)
+            continue
+        ctx.emit('C01-R11', bad is None, LOADER, c, f'`{src(e)}` passes the RR guard of TaggedRecord.__init__ for rejections with and without a message' if bad is None else
+                 f'a rejected pair is written without its reason: {bad}', key=f'reason-reaches-RR:{k}', witness=bad, what='rejected reads are written without the RR tag')
+    # the base strategy forwards its reason parameter to every TaggedRecord it builds
+    g = ctx.fn(BASEDEMUX, 'IlluminaBaseDemultiplexer.demultiplex')
+    # (construction, name that holds the reason there): in demultiplex itself, or in a helper method of the class that is handed the reason
+    trs = [(c, 'reason') for c in ast.walk(g) if isinstance(c, ast.Call) and last_name(dotted(c.func) or '') == 'TaggedRecord']
+    for hc in [c for c in ast.walk(g) if isinstance(c, ast.Call) and isinstance(c.func, ast.Attribute) and src(c.func.value) == 'self']:
+        try:
+            hf = ctx.fn(BASEDEMUX, f'IlluminaBaseDemultiplexer.{hc.func.attr}')
+        except AnalysisError:
+            continue
+        hp = [a.arg for a in hf.args.args][1:]
+        got = [hp[i] for i, a in enumerate(hc.args) if isinstance(a, ast.Name) and a.id == 'reason' and i < len(hp)] + [k_.arg for k_ in hc.keywords if isinstance(k_.value, ast.Name) and k_.value.id == 'reason']
+        for c in ast.walk(hf):
+            if isinstance(c, ast.Call) and last_name(dotted(c.func) or '') == 'TaggedRecord':
+                trs.append((c, got[0] if got else None))
+    ctx.need('C01-R11', len(trs), 1, 'TaggedRecord constructions of the rejects tagger')
+    for k, (c, holder) in enumerate(trs):
+        kw = [x.value for x in c.keywords if x.arg == 'reason']
+        ok = bool(kw) and isinstance(kw[0], ast.Name) and kw[0].id == holder
+        ctx.emit('C01-R11', ok, BASEDEMUX, c, 'the rejects tagger gives its reason to the record it builds' if ok else f'TaggedRecord is built with reason={src(kw[0]) if kw else "<missing>"}: the reason of the rejection is lost',
+                 key=f'reason-forwarded:{k}', witness={'reason': src(kw[0]) if kw else None} if not ok else None, what='the rejects tagger drops the rejection reason')
+
+
+@rule('C01', 'C01-R12', 'chunked runs lose no chunk: the per-chunk jobs of the command line (group ids counted from 0) write under a name the glue step collects - the output prefix, '
+                        'evaluated for the group ids None / 0 / 1 / 12, is empty only without a group id and otherwise carries the marker the `cat ... > final` commands match')
+def r12(ctx):
+    from ..consteval import Evaluator, Unfoldable
+    m = ctx.ix.module(DEMUX)
+    binds = [st for st in ast.walk(m.tree) if isinstance(st, ast.Assign) and len(st.targets) == 1 and isinstance(st.targets[0], ast.Name) and st.targets[0].id == 'prefix']
+    glue = sorted({p_ for c in ast.walk(m.tree) if isinstance(c, ast.Constant) and isinstance(c.value, str) for p_ in __import__('re').findall(r'\*(_[A-Z]+_)[A-Za-z]', c.value)})
+    # the statement that decides the prefix: the assignment itself, or the if-statement whose arms assign it (the canonical form of a conditional expression)
+    top = None
+    if binds:
+        top = binds[0]
+        while len(binds) > 1 and top is not None and not all(any(x is b for x in ast.walk(top)) for b in binds):
+            top = m.parent.get(top)
+    if top is None or isinstance(top, ast.Module) or len(glue) != 1 or 'args.g' not in src(top):
+        ctx.emit('C01-R12', False, DEMUX, None, f'chunk prefix assignment ({len(binds)}) / glue pattern ({glue}) not found in their known form', key='chunk-prefix', undecided=True)
+        return
+    marker = glue[0]
+    bad = None
+    fn = ast.FunctionDef(name='_prefix', args=ast.arguments(posonlyargs=[], args=[], kwonlyargs=[], kw_defaults=[], defaults=[]), decorator_list=[], type_params=[],
+                         body=[top, ast.Return(value=ast.Name(id='prefix', ctx=ast.Load()))])
+    ast.fix_missing_locations(fn)
+    try:
+        from ..consteval import run_function
+        for g_ in (None, 0, 1, 12):
+            v = run_function(fn, [], env={'args.g': g_}, budget=2000)
+            ok = (v == '') if g_ is None else (isinstance(v, str) and v.endswith(marker) and str(g_) in v)
+            if not ok and bad is None:
+                bad = {'group id (-g)': g_, 'output prefix': v, 'glue collects': f'*{marker}*'}
+    except (Unfoldable, Exception) as e_:
+        ctx.emit('C01-R12', False, DEMUX, binds[0], f'the chunk prefix is outside the interpreted subset ({type(e_).__name__}: {str(e_)[:60]})', key='chunk-prefix', undecided=True)
+        return
+    ctx.emit('C01-R12', bad is None, DEMUX, binds[0], f'every chunk id gives a prefix ending in {marker}, which the glue commands match' if bad is None else
+             f'{bad}: the files of that chunk are written under the final names, are not matched by the glue step and are overwritten by its redirection - the reads of the chunk are in no output',
+             key='chunk-prefix', witness=bad, what='demux.py: the first chunk writes without the temporary prefix')
+
+
 META = {
     'text': ('Decides, for the loader loop on every control-flow path of one (read pair, strategy) iteration including every exception edge and '
              'all 8 targetFile/rejectHandle/probe configurations: exactly one sink write completes when both handles are present (never both, never '
